@@ -10,7 +10,7 @@ for s in "$@"; do
   for id in $ids; do
     o=$(./devmut $d/patch.diff $id 2>&1)
     key=$(echo "$o" | grep -m1 "^VIOLATION" | sed 's/.*key=\([^ ]*\).*/\1/')
-    rc=0; echo "$o" | grep -q "^VIOLATED" && rc=1; echo "$o" | grep -q "^INCONCLUSIVE" && rc=2
+    rc=0; echo "$o" | grep -q "^VIOLAT" && rc=1; echo "$o" | grep -q "^INCONCLUSIVE" && rc=2
     echo "$s $id exit=$rc ${key:-none}" >> $out
   done
 done
